@@ -33,6 +33,12 @@ import (
 type jent struct {
 	broker   int32
 	key, ver int16
+	ktype    int8 // find-coordinator requests: the KeyType the broker decoded
+}
+
+type fcAnswer struct {
+	err  int16
+	node int32
 }
 
 type fakeBroker struct {
@@ -45,8 +51,10 @@ type fake struct {
 	mu      sync.Mutex
 	brokers map[string]*fakeBroker // by "host:port"
 	md      *meta.Response         // what a metadata request is answered with
-	fcErr   int16                  // what a find-coordinator request is answered with
-	fcNode  int32
+	fc      [2]fcAnswer            // how find-coordinator is answered, per KeyType (0 group, 1 transaction)
+	mdMode  int                    // Metadata requests: 0 answered, 1 left unanswered until resume, 2 connection closed
+	mdFault int                    // Metadata requests received while mdMode != 0
+	resume  chan struct{}
 	journal []jent
 	conns   []net.Conn
 }
@@ -84,7 +92,25 @@ func (f *fake) serve(b *fakeBroker, conn net.Conn) {
 			return
 		}
 		f.mu.Lock()
-		f.journal = append(f.journal, jent{b.id, int16(msg.ApiKey()), ver})
+		e := jent{broker: b.id, key: int16(msg.ApiKey()), ver: ver}
+		if q, ok := msg.(*findcoordinator.Request); ok {
+			e.ktype = q.KeyType
+		}
+		f.journal = append(f.journal, e)
+		if _, ok := msg.(*meta.Request); ok && f.mdMode != 0 {
+			f.mdFault++
+			mode, resume := f.mdMode, f.resume
+			f.mu.Unlock()
+			if mode == 2 {
+				return // i/o error: the connection is closed under the request
+			}
+			select { // not answered: the transport's per-request deadline (MetadataTTL) fires
+			case <-resume:
+			case <-time.After(20 * time.Second):
+				return
+			}
+			f.mu.Lock()
+		}
 		res := f.answer(b, msg, ver)
 		f.mu.Unlock()
 		if res == nil {
@@ -114,8 +140,12 @@ func (f *fake) answer(b *fakeBroker, msg protocol.Message, ver int16) protocol.M
 	case *meta.Request:
 		return cloneMd(f.md)
 	case *findcoordinator.Request:
-		r := &findcoordinator.Response{ErrorCode: f.fcErr, NodeID: f.fcNode}
-		r.Host, r.Port = hostOf(uint64(int64(f.fcNode) + 16))
+		a := f.fc[0]
+		if q.KeyType == 1 {
+			a = f.fc[1]
+		}
+		r := &findcoordinator.Response{ErrorCode: a.err, NodeID: a.node}
+		r.Host, r.Port = hostOf(uint64(int64(a.node) + 16))
 		return r
 	case *produce.Request:
 		r := &produce.Response{}
@@ -182,6 +212,14 @@ func (f *fake) answer(b *fakeBroker, msg protocol.Message, ver int16) protocol.M
 	return nil
 }
 
+func encJent(e jent) string {
+	s := "b" + zs(int64(e.broker)) + ":" + zs(int64(e.key)) + ":" + zs(int64(e.ver))
+	if e.key == 10 {
+		s += ":" + zs(int64(e.ktype))
+	}
+	return s
+}
+
 func sortedMd(m *meta.Response) *meta.Response {
 	c := cloneMd(m)
 	sort.SliceStable(c.Brokers, func(i, j int) bool { return c.Brokers[i].NodeID < c.Brokers[j].NodeID })
@@ -227,6 +265,9 @@ func genVers(r *rand.Rand) (map[int16][2]int16, map[string]bool) {
 			v[k] = [2]int16{0, 3}
 		case k == 3: // keep ControllerID (v1+) in the client's view
 			v[k] = [2]int16{0, 1 + int16(r.Intn(10))}
+		case k == 10 && r.Intn(4) != 0: // KeyType is on the wire from v1 on
+			v[k] = [2]int16{0, 1 + int16(r.Intn(3))}
+			feat["fc>=v1"] = true
 		case (k == 12 || k == 22) && r.Intn(6) == 0:
 			feat["key-not-advertised"] = true // version 0 is used
 		default:
@@ -251,7 +292,7 @@ type e2eReq struct {
 }
 
 func runE2E(r *rand.Rand, scenario int) {
-	f := &fake{brokers: map[string]*fakeBroker{}, fcErr: 0}
+	f := &fake{brokers: map[string]*fakeBroker{}, resume: make(chan struct{})}
 	feat := map[string]bool{}
 	// brokers
 	pool := []int32{0, 1, 2, 3, 5, 7, 100}
@@ -383,22 +424,33 @@ func runE2E(r *rand.Rand, scenario int) {
 		case x == 9:
 			return e2eReq{enc: "ctl=" + zs(20), msg: &deletetopics.Request{TopicNames: []string{"nosuch"}}, fc: "-", feat: "deletetopics"}
 		case x == 10 || x == 11:
-			// what the find-coordinator exchange will answer
-			var e int16
-			var node int32
-			ff := "coordinator-ok"
-			switch r.Intn(5) {
-			case 0:
-				e, node, ff = 15, -1, "coordinator-error"
-			case 1:
-				e, node, ff = 0, 77, "coordinator-not-a-broker"
-			default:
-				node = m.Brokers[r.Intn(len(m.Brokers))].NodeID
+			// how the cluster answers find-coordinator for this string, per key type: the group
+			// and the transaction coordinator of the same string are mostly different brokers
+			pick := func() (fcAnswer, string) {
+				switch r.Intn(6) {
+				case 0:
+					return fcAnswer{15, -1}, "coordinator-error"
+				case 1:
+					return fcAnswer{0, 77}, "coordinator-not-a-broker"
+				}
+				return fcAnswer{0, m.Brokers[r.Intn(len(m.Brokers))].NodeID}, "coordinator-ok"
+			}
+			ag, fg := pick()
+			at, ft := pick()
+			for i := 0; i < 4 && at == ag; i++ {
+				at, ft = pick()
+			}
+			ff := fg
+			if x == 11 {
+				ff = ft
+			}
+			if ag != at {
+				ff += ",coordinators-differ"
 			}
 			f.mu.Lock()
-			f.fcErr, f.fcNode = e, node
+			f.fc = [2]fcAnswer{ag, at}
 			f.mu.Unlock()
-			fc := zs(int64(e)) + "/" + zs(int64(node))
+			fc := zs(int64(ag.err)) + "/" + zs(int64(ag.node)) + "," + zs(int64(at.err)) + "/" + zs(int64(at.node))
 			if x == 10 && r.Intn(3) == 0 {
 				return e2eReq{enc: "g=" + zs(12) + ":" + nm("grp"), msg: &heartbeat.Request{GroupID: "grp", MemberID: "m"}, fc: fc, feat: "group,heartbeat," + ff}
 			}
@@ -438,7 +490,7 @@ func runE2E(r *rand.Rand, scenario int) {
 			if e.key == 3 || e.key == 18 {
 				continue
 			}
-			tr = append(tr, "b"+zs(int64(e.broker))+":"+zs(int64(e.key))+":"+zs(int64(e.ver)))
+			tr = append(tr, encJent(e))
 		}
 		f.mu.Unlock()
 		status := "ok"
